@@ -286,7 +286,7 @@ def run(ctx):
                         "repetitions in documents bounded by 2"]
     ctx.tlc("MC_Schema", "run.cfg", extra_files={"run.cfg": cfg('{"int"}', "OccsSmall", 0, mc=True)}, label="MC_Schema construction vs acceptor", timeout=1500)
     ctx.exhaustive = False
-    types = '{"int", "string", "boolean", "decimal", "date", "Color", "Ints", "IntsAnon", "IntOrStr", "Kid", "FixedStr", "DefInt", "long"}'
+    types = '{"int", "string", "boolean", "decimal", "date", "Color", "Ints", "IntsAnon", "IntOrStr", "ColorOrInt", "Kid", "FixedStr", "DefInt", "long"}'
     res = ctx.tlc("MC_Schema", "run.cfg", workers=1, simulate=f"num={ctx.pick(260, 6000)}", depth=13,
                   extra_files={"run.cfg": cfg(types, ctx.pick("OccsSmall", "OccsAll"), 6, emit=True)}, label="Gen_Schema schemas and documents",
                   tags=("XSD",), timeout=3000)
